@@ -215,6 +215,29 @@ async def audit_index(db, ref, *, rng=None, limit_calls=None, timeout=120.0, poo
     return out, undo
 
 
+async def snapshot(db, pool, timeout=300.0):
+    """Every observable of an index as plain data (for the fresh-server differential of C03)."""
+    st = db.state
+    out = dict(height=st.height, tip=st.tip, tx_count=st.tx_count, utxo_count=st.utxo_count,
+               chain_size=st.chain_size)
+    hdrs, n = await db.read_headers(0, st.height + 1)
+    out['headers'] = (n, hdrs)
+    out['block_txids'] = [await db.tx_hashes_at_blockheight(h) for h in range(st.height + 1)]
+    out['utxos'] = {}
+    out['history'] = {}
+    for hx in pool:
+        us = await _limited(db.all_utxos(hx), timeout)
+        out['utxos'][hx] = sorted((u.tx_hash, u.tx_pos, u.value, u.height, u.tx_num) for u in us)
+        out['history'][hx] = await _limited(db.limited_history(hx, limit=None), timeout)
+    loop = asyncio.get_event_loop()
+
+    def raw():
+        return (sorted(db.utxo_db.iterator(prefix=b'u')), sorted(db.utxo_db.iterator(prefix=b'h')),
+                {k[:-2] for k, _v in db.history.db.iterator(prefix=b'') if len(k) == HASHX_LEN + 2})
+    out['raw_u'], out['raw_h'], out['hist_keys'] = await loop.run_in_executor(None, raw)
+    return out
+
+
 def digest_index(db_snapshot):
     """Stable digest of an observable snapshot (for resume == uninterrupted comparisons)."""
     import hashlib
